@@ -308,6 +308,8 @@ func (r *Rec) statement(i int, st Stmt, query string) *wire.PreparedStatement {
 					return fmt.Errorf("upstream closed: %w", io.EOF)
 				case "UEOF":
 					return fmt.Errorf("upstream truncated: %w", io.ErrUnexpectedEOF)
+				case "JOIN": // several failures reported as one error value (errors.Join): still ONE error of the statement
+					return errors.Join(errors.New("first failure"), errors.New("second failure"), psqlerr.WithCode(errors.New("third failure"), "23505"))
 				case "WARNING", "NOTICE", "INFO", "LOG", "DEBUG", "FATAL", "PANIC":
 					// an error the application decorated with that severity: it still is the statement's error
 					return psqlerr.WithSeverity(errors.New("decorated with severity "+op[1:]), psqlerr.Severity(op[1:]))
